@@ -322,7 +322,11 @@ class CallMixin(object):
                 if parts[0] != 'self' or len(parts) != 2 or not isinstance(recv, RefV):
                     raise Unsupported('callee modifies clause %r' % path)
                 cur = st.heap[(recv.id, parts[1])]
-                if isinstance(cur, RefV) and cur.kind == 'list':
+                if isinstance(cur, RefV) and cur.kind == 'list' and self.spec.hints.get('havoc_list') is not None \
+                        and self.spec.hints['havoc_list'](self, st, cur, parts[1]):
+                    if cur.id in self.tracked_refs or recv.id in self.tracked_refs:
+                        st.writes.append((cur.id, 'val', line))
+                elif isinstance(cur, RefV) and cur.kind == 'list':
                     st.heap[(cur.id, 'val')] = self.havoc_value(self.deref_for_contract(cur, st), parts[1])
                     if cur.id in self.tracked_refs or recv.id in self.tracked_refs:
                         st.writes.append((cur.id, 'val', line))
